@@ -249,7 +249,7 @@ func runC19(r *core.Run) {
 	var outcomes [3]int64
 	core.ParallelFor(len(in), 16, func(i int) {
 		x := in[i]
-		for si, sc := range []string{"all", "1", "random17", fmt.Sprintf("seeker@%d", 1+i%23)} {
+		for si, sc := range []string{"all", "1", "random17", fmt.Sprintf("seeker@%d", 1+i%23), "data+eof", "4096+data+eof"} {
 			if sc == "1" && len(x.bytes) > 100000 {
 				continue
 			}
